@@ -20,6 +20,7 @@ pub const FAULTS: &[&str] = &[
     "not-an-object",
     "long-non-ascii-text-frame",
     "empty-frames",
+    "huge-frame",
     "truncated-frame-then-eof",
     "eof-mid-burst",
     "read-error",
@@ -101,6 +102,18 @@ fn fault_frame(rng: &mut Rng, kind: &str, client: u32) -> Vec<u8> {
                 0 => format!("{{\"method\":\"t.Nope{pad}{body}\"}}"),
                 1 => format!("{{\"method\":\"t.Echo\",\"parameters\":{{\"client\":\"{pad}{body}\",\"seq\":1,\"payload\":\"x\"}}}}"),
                 _ => format!("{pad}{body}"),
+            }
+            .into_bytes()
+        }
+        // one frame of one to three MiB (far below the limit, far above anything a buffer-management heuristic would
+        // consider ordinary) that is no call: plain text, text inside a JSON string, or a huge unknown member
+        "huge-frame" => {
+            let n = rng.range(1_050_000, 3_200_000);
+            let fill = |n: usize| -> String { (0..n).map(|k| (b'a' + (k % 23) as u8) as char).collect() };
+            match rng.below(3) {
+                0 => fill(n),
+                1 => format!("{{\"method\":\"t.Nope\",\"parameters\":{{\"text\":\"{}\"}}}}", fill(n)),
+                _ => format!("{{\"method\":\"t.Echo\",\"parameters\":{{\"client\":\"{}\",\"seq\":1,\"payload\":\"x\"}}}}", fill(n)),
             }
             .into_bytes()
         }
@@ -614,12 +627,15 @@ pub fn run(cfg: &Cfg) -> Report {
         if *kind == "oversized-frame" && !small {
             continue;
         }
+        if *kind == "huge-frame" && (miri || small) {
+            continue;
+        }
         for pos in 0..3usize {
             idx += 1;
             if !cfg.mine(idx) {
                 continue;
             }
-            for k in 0..per {
+            for k in 0..(if *kind == "huge-frame" { (per / 60).max(2) } else { per }) {
                 let nhealthy = if miri { 1 } else { rng.range(1, 3) };
                 let mut b = build(&mut rng, kind, pos, nhealthy, small);
                 b.scn.wake = rng.chance(1, 3);
